@@ -28,6 +28,9 @@
 #include "eusername.h"
 
 #include "snoopy.h"
+#ifdef SNOOPY_CONF_THREAD_SAFETY_ENABLED
+#include "tsrm.h"
+#endif
 
 #include <stdio.h>
 #include <stdlib.h>
@@ -53,6 +56,7 @@
 int snoopy_datasource_eusername (char * const resultBuf, size_t resultBufSize, __attribute__((unused)) char const * const arg)
 {
     struct passwd  pwd;
+    int            nssRetVal;
     struct passwd *pwd_uid         = NULL;
     char          *buffpwd_uid     = NULL;
     long           buffpwdsize_uid = 0;
@@ -69,7 +73,19 @@ int snoopy_datasource_eusername (char * const resultBuf, size_t resultBufSize, _
     }
 
     /* Try to get data */
-    if (0 != getpwuid_r(geteuid(), &pwd, buffpwd_uid, buffpwdsize_uid, &pwd_uid)) {
+    /*
+     * The NSS lookup runs under locks of libc (module table, service data) that fork() does not
+     * reset in the child: if another thread forked right now, the child's first lookup would block
+     * forever. Keep fork() out while the lookup runs (see snoopy_tsrm_forkGuard_enter()).
+     */
+#ifdef SNOOPY_CONF_THREAD_SAFETY_ENABLED
+    snoopy_tsrm_forkGuard_enter();
+#endif
+    nssRetVal = getpwuid_r(geteuid(), &pwd, buffpwd_uid, buffpwdsize_uid, &pwd_uid);
+#ifdef SNOOPY_CONF_THREAD_SAFETY_ENABLED
+    snoopy_tsrm_forkGuard_leave();
+#endif
+    if (0 != nssRetVal) {
         messageLength  = snprintf(resultBuf, resultBufSize, "ERROR(getpwuid_r)");
     } else {
         if (NULL == pwd_uid) {
